@@ -60,7 +60,10 @@ def events(ctx):
         else:
             td = {"days": rng.choice([0, 0, 1, rng.randrange(70000)]), "secs": rng.randrange(86400),
                   "us": rng.choice([0, 1000 * rng.randrange(1000), rng.randrange(1000000)])}
-        yield record("cds.add", {"st": st, "td": td})
+        e = {"st": st, "td": td}
+        if rng.random() < 0.3:
+            e["via"] = "from_dt"
+        yield record("cds.add", e)
     for _ in range(ctx.q(10000, 500000)):
         s1 = rnd_stamp(rng)
         s2 = dict(s1)
